@@ -398,7 +398,7 @@ func fnSetBit(ctx *cmdContext, args map[string]any) (output respValue, err error
 	offset64 := args["offset"].(int64)
 	value64 := args["value"].(int64)
 
-	if offset64 < 0 {
+	if offset64 < 0 || offset64 >= maxStringLength*8 {
 		output.data = respErrorString("ERR bit offset is not an integer or out of range")
 		return
 	}
